@@ -159,8 +159,12 @@ def check_config(arg):
         a2 = cisco_acl.acls(text, platform=platform, **kw)
         if [a.line for a in a2] != [a.line for a in a1] or [clean(a.data(), ("uuid", "input", "output")) for a in a2] != [clean(a.data(), ("uuid", "input", "output")) for a in a1]:
             fails.append(dict(key="bounded/acls:fixpoint", what=f"acls() of its own rendering differs: {[a.line for a in a2]} vs {[a.line for a in a1]}", inputs=dict(cfg=cfg, platform=platform, kw=kw)))
-        g1 = cisco_acl.addrgroups(cfg, platform=platform)
-        g2 = cisco_acl.addrgroups("\n".join(g.line for g in g1), platform=platform)
+        ikw = {k: v for k, v in kw.items() if k == "indent"}
+        g1 = cisco_acl.addrgroups(cfg, platform=platform, **ikw)
+        g2 = cisco_acl.addrgroups("\n".join(g.line for g in g1), platform=platform, **ikw)
+        if ikw and (not a1 or not g1 or any(not l.startswith(ikw["indent"]) for a in a1 for l in a.line.split("\n")[1:] if l)):
+            fails.append(dict(key="bounded/config:indent-setting", what=f"indent={ikw['indent']!r}: acls()/addrgroups() return {len(a1)}/{len(g1)} objects, rendered {[a.line for a in a1][:1]}",
+                              inputs=dict(cfg=cfg, platform=platform, kw=kw)))
         if [g.line for g in g1] != [g.line for g in g2]:
             fails.append(dict(key="bounded/addrgroups:fixpoint", what="addrgroups() of its own rendering differs", inputs=dict(cfg=cfg, platform=platform)))
         e1 = cisco_acl.aces(cfg, platform=platform)
@@ -241,14 +245,15 @@ def main(chk):
                     len(cases), len(cases), "12 object levels: gen_ace lines x versions x switches, address spellings, port/protocol/option/remark/wildcard tokens, "
                     "address groups x indent, extended/standard ACLs and ACE groups of <= 3 lines x indent", viol, time.time() - t0, [list(cases[10][:2])], exhaustive=False)
     t0 = time.time()
-    ccases = [(c, p, kw) for p in CFG for c in CFG[p] for kw in ((), (("port_nr", True),), (("group_by", "="),))]
+    ccases = [(c, p, kw) for p in CFG for c in CFG[p] for kw in ((), (("port_nr", True),), (("group_by", "="),), (("indent", "\t"),), (("indent", "\t\t"),), (("indent", " \t"),),
+                                                                  (("indent", "    "),), (("indent", "\t "), ("group_by", "=")))]
     res = pmap(check_config, ccases)
     viol = 0
     for fails, _ in res:
         for f in fails:
             viol += 1
             chk.finding(f["key"], f["what"], inputs=f["inputs"], key=f["key"])
-    chk.add_bounded("acls / aces / addrgroups are fixed points on their own rendering", len(ccases), len(ccases), "3 configurations x 3 settings", viol, time.time() - t0,
+    chk.add_bounded("acls / aces / addrgroups are fixed points on their own rendering", len(ccases), len(ccases), "3 configurations x 8 settings (switches, grouping, five indentation settings incl. tabs)", viol, time.time() - t0,
                     [ccases[0][1]], exhaustive=False)
     return chk.finish("other", "Bounded contract check (no deductive obligation): the constructors are regex/`**data()` glue outside the deductive subset; the "
                       "per-class meaning is covered by C01/C05/C08/C09.", trusted_base=["the library's own constructors (self-consistency check)"])
